@@ -7,6 +7,7 @@
    real connection (validated against bufconn on every run).  Two classes of scenarios on which the
    two differ are recorded as known findings ([known_class]); on everything else they are equal. *)
 From SC Require Import Base.Prelude Wrap.Stream Wrap.GrpcSpec Wrap.C13Judge Wrap.Copy Wrap.StreamProofs.
+From SC Require Import Wrap.Sites Gen.WrapSites Wrap.SitesProofs.
 
 (* Same client transcript (messages in order, terminal outcome with status code and message,
    header and trailer metadata, results of sends) and same handler-side transcript, for every
@@ -69,6 +70,75 @@ Theorem C13_metadata_alias_variant_refuted : exists a h ws,
   mget (md_set true None a h) (apply_mwrites ws h) <> mread a h.
 Proof. exact md_alias_not_copied. Qed.
 
+(* A message is copied BEFORE SendMsg returns (80ea756): whatever the sender, or anybody, writes
+   between the return of SendMsg and the moment the receiver's RecvMsg copies what it was handed --
+   to any object other than the private snapshot -- the receiver gets the content the message had
+   when SendMsg was called, and the transfer leaves the sender's object alone. *)
+Theorem C13_send_copied_before_return : forall h src tmp dst between,
+  (forall p, In p between -> fst p <> tmp) ->
+  hread dst (send_recv true src tmp dst between h) = hread src h.
+Proof. exact send_snapshot_isolated. Qed.
+Print Assumptions C13_send_copied_before_return.
+
+Theorem C13_send_leaves_sender_object : forall h src tmp dst,
+  src <> tmp -> src <> dst -> hread src (send_recv true src tmp dst [] h) = hread src h.
+Proof. exact send_snapshot_sender_untouched. Qed.
+
+(* before 80ea756 the sender's own object crossed the channel and was copied by the receiver after
+   SendMsg had returned: a handler reusing its message for the next Send altered what the client got *)
+Theorem C13_copy_on_receive_v0_refuted : exists h src tmp dst between,
+  (forall p, In p between -> fst p <> tmp /\ fst p <> dst) /\
+  hread dst (send_recv false src tmp dst between h) <> hread src h.
+Proof. exact send_no_snapshot_refuted. Qed.
+
+(* Tie of the two heap models to the source: the table of boundary sites of stream.go (Gen/WrapSites.v,
+   regenerated from the tree under check on every run: channel sends, stores into header / trailer,
+   what Header() / Trailer() return, what RecvMsg returns after a receive) -- every site goes through
+   the copying function of its kind, and all the sites the model speaks about are present. *)
+Theorem C13_every_boundary_site_copies :
+  forallb ws_copies wrap_sites = true /\
+  (1 <=? count_kind KChanSend wrap_sites) && (3 <=? count_kind KMdStore wrap_sites)
+  && (2 <=? count_kind KMdHandout wrap_sites) && (2 <=? count_kind KRecvCopy wrap_sites) = true.
+Proof. split; [exact every_site_copies | exact sites_present]. Qed.
+Print Assumptions C13_every_boundary_site_copies.
+
+(* the switchable repairs of the model are set as the source has them: Close latches pending headers
+   under a test of the context, SetHeader tests the latch before joining, doneErr can return ctx.Err(),
+   the server's SendMsg leaves on a finished context before latching; Close assigns closeErr before
+   closing anything (facts regenerated from stream.go on every run) *)
+Theorem C13_model_repairs_match_source :
+  fx_now = wrap_fixes /\ wrap_close_err_first = true /\ wrap_order_problems = [].
+Proof. exact fixes_generated. Qed.
+
+(* the method table of the model is the one generated from testproto.TestApi_ServiceDesc *)
+Theorem C13_method_table_is_service_desc : method_table = wrap_methods.
+Proof. exact method_table_generated. Qed.
+
+(* startStream: the handler's incoming metadata is a copy (cloneMD) of the client's outgoing map;
+   later writes by the client to its map do not show.  (In the scenario model the handler-side
+   transcript carries the incoming metadata, and C13_wrapper_equals_grpc covers it.) *)
+Theorem C13_incoming_metadata_cloned : forall a h ws,
+  mget (clone_md a h) (apply_mwrites ws h) = mread a h.
+Proof. exact incoming_md_cloned. Qed.
+
+(* unwrap.go: UnwrapFully returns the innermost object of any finite chain of Unwrappers; its result
+   never is an Unwrapper again *)
+Theorem C13_unwrap_fully_innermost : forall ids leaf, unwrap_fully (mk_chain ids leaf) = Plain leaf.
+Proof. exact unwrap_chain. Qed.
+Theorem C13_unwrap_fully_is_plain : forall o, exists i, unwrap_fully o = Plain i.
+Proof. exact unwrap_is_plain. Qed.
+Theorem C13_unwrap_fully_idempotent : forall o, unwrap_fully (unwrap_fully o) = unwrap_fully o.
+Proof. exact unwrap_idempotent. Qed.
+Print Assumptions C13_unwrap_fully_innermost.
+
+(* the judge is complete w.r.t. the models: an observation (of any case kind) that agrees with the
+   models, lies in the fragment and in no recorded class satisfies the property predicate -- so a
+   verdict 2 always is a recorded class, and every other alarm involves a disagreement with a model *)
+Theorem C13_judge_complete : forall c,
+  agrees c = true -> C13_guard c = true -> C13_known c = None -> C13_ok c = true /\ judge c = 0.
+Proof. intros c Ha Hg Hk. split; [exact (judge_complete c Ha Hg Hk) | exact (judge_zero c Ha Hg Hk)]. Qed.
+Print Assumptions C13_judge_complete.
+
 (* what the judge computes on the models' own output is verdict 0 *)
 Theorem C13_judge_sound : forall sc,
   wf sc = true -> no_known sc = true ->
@@ -83,28 +153,28 @@ Definition differs (fx : fixes) (sc : scenario) : Prop :=
 
 (* before 265f37f: a header set but not sent is lost when the handler returns *)
 Theorem C13_header_on_return_v0_refuted :
-  differs (mkFx false true true true) (mkScn Unary 5 false [SetH [(0, 1)]; Ret (RetStatus 5 3)]).
+  differs (mkFx false true true true) (mkScn Unary 5 [] CtxLive [SetH [(0, 1)]; Ret (RetStatus 5 3)]).
 Proof. repeat split; try reflexivity. vm_compute. discriminate. Qed.
 
 (* before c5fbe0f: SetHeader after the first message is accepted and shown to the client *)
 Theorem C13_late_set_header_v0_refuted :
   differs (mkFx true false true true)
-          (mkScn ServerStream 2 false [S2C 1; SetH [(0, 1)]; CHeader; Ret (RetOk 0)]).
+          (mkScn ServerStream 2 [] CtxLive [S2C 1; SetH [(0, 1)]; CHeader; Ret (RetOk 0)]).
 Proof. repeat split; try reflexivity. vm_compute. discriminate. Qed.
 
 (* before 7bd1900: Invoke on a cancelled context returns io.EOF *)
 Theorem C13_context_error_v0_refuted :
-  differs (mkFx true true false true) (mkScn Unary 5 true []).
+  differs (mkFx true true false true) (mkScn Unary 5 [] CtxCanceled []).
 Proof. repeat split; try reflexivity. vm_compute. discriminate. Qed.
 
 (* before 4e39ea2: a unary handler answering after the cancel publishes its pending headers *)
 Theorem C13_send_after_cancel_v0_refuted :
-  differs (mkFx true true true false) (mkScn UnaryAsStream 56 false [SetH [(0, 1)]; Cancel]).
+  differs (mkFx true true true false) (mkScn UnaryAsStream 56 [] CtxLive [SetH [(0, 1)]; Cancel false]).
 Proof. repeat split; try reflexivity. vm_compute. discriminate. Qed.
 
 Theorem C13_wrapper_equals_grpc_v0_refuted : exists sc, differs fx_v0 sc.
 Proof.
-  exists (mkScn Unary 5 false [SetH [(0, 1)]; Ret (RetStatus 5 3)]).
+  exists (mkScn Unary 5 [] CtxLive [SetH [(0, 1)]; Ret (RetStatus 5 3)]).
   repeat split; try reflexivity. vm_compute. discriminate.
 Qed.
 
@@ -113,39 +183,80 @@ Qed.
 Theorem C13_trailer_after_cancel_refuted : exists sc,
   wf sc = true /\ known_class sc = Some 1 /\ wrap_run fx_now sc <> grpc_run sc.
 Proof.
-  exists (mkScn ServerStream 2 false [SetT [(0, 4)]; S2C 1; Cancel]).
+  exists (mkScn ServerStream 2 [] CtxLive [SetT [(0, 4)]; S2C 1; Cancel false]).
   repeat split; try reflexivity. vm_compute. discriminate.
 Qed.
 
 Theorem C13_response_then_error_refuted : exists sc,
   wf sc = true /\ known_class sc = Some 2 /\ wrap_run fx_now sc <> grpc_run sc.
 Proof.
-  exists (mkScn ClientStream 0 false [C2S 1; S2C 3; Ret (RetStatus 9 1)]).
+  exists (mkScn ClientStream 0 [] CtxLive [C2S 1; S2C 3; Ret (RetStatus 9 1)]).
   repeat split; try reflexivity. vm_compute. discriminate.
 Qed.
 
+(* class 4: the handler sends headers after the client's context has ended (none sent before): the
+   wrapper's Header() shows them afterwards, a real connection delivers nothing to a finished call *)
+Theorem C13_header_after_context_end_refuted : exists sc,
+  wf sc = true /\ known_class sc = Some 4 /\ wrap_run fx_now sc <> grpc_run sc.
+Proof.
+  exists (mkScn Bidi 0 [] CtxLive [CtxEnd false; SendH [(0, 7)]; Ret (RetOk 0)]).
+  repeat split; try reflexivity. vm_compute. discriminate.
+Qed.
+
+(* class 3 (outside every scenario): SendMsg after CloseSend and a second CloseSend panic in the
+   wrapper; a real connection answers with an Internal error and with nil *)
+Theorem C13_client_misuse_refuted : forall k, w_misuse k <> g_misuse k.
+Proof. destruct k; discriminate. Qed.
+
 (* ---- non-vacuity ---- *)
 
+(* a deadline that expires while the client waits for the next message, request metadata attached *)
+Example C13_nonvacuous_deadline :
+  let sc := mkScn ServerStream 3 [(1, 7); (0, 2)] CtxLive [SetH [(0, 1)]; S2C 8; Cancel true] in
+  wf sc = true /\ no_known sc = true /\
+  wrap_run fx_now sc =
+  ([CSent true; CClosed; CGot 8; CEnd ODeadline; CHdr [(0, 1)]; CTrl []],
+   [SEntered 3; SIncoming [(0, 2); (1, 7)]; SSetH true; SSent true; SDone true]).
+Proof. repeat split; reflexivity. Qed.
+
+(* the handler goes on after the client's deadline has expired: sets headers and an empty trailer, tries
+   to send, fails to receive, returns an error -- none of it reaches the client *)
+Example C13_nonvacuous_after_context_end :
+  let sc := mkScn Bidi 0 [] CtxLive
+              [C2S 4; SetH [(0, 1)]; CtxEnd true; SetH [(1, 2)]; S2C 9; SetT []; RecvEOF; Ret (RetStatus 5 4)] in
+  wf sc = true /\ no_known sc = true /\
+  wrap_run fx_now sc =
+  ([CSent true; CEnd ODeadline; CHdr []; CTrl []],
+   [SEntered (-1); SIncoming []; SGot 4; SSetH true; SDone true]).
+Proof. repeat split; reflexivity. Qed.
+
+(* a call made on a context whose deadline has already passed *)
+Example C13_nonvacuous_expired :
+  let sc := mkScn Unary 5 [] CtxExpired [] in
+  wf sc = true /\ no_known sc = true /\ fst (wrap_run fx_now sc) = [CEnd ODeadline; CHdr []; CTrl []].
+Proof. repeat split; reflexivity. Qed.
+
+
 Example C13_nonvacuous_bidi :
-  let sc := mkScn Bidi 0 false
+  let sc := mkScn Bidi 0 [] CtxLive
               [SetH [(0, 1)]; C2S 7; S2C 8; SetH [(1, 2)]; CHeader; SetT [(2, 3)]; CloseSend; RecvEOF; S2C 9;
                Ret (RetStatus 5 4)] in
   wf sc = true /\ no_known sc = true /\
   wrap_run fx_now sc =
   ([CSent true; CGot 8; CHdr [(0, 1)]; CClosed; CGot 9; CEnd (OErr 5 4); CHdr [(0, 1)]; CTrl [(2, 3)]],
-   [SEntered (-1); SSetH true; SGot 7; SSent true; SSetH false; SEof; SSent true]).
+   [SEntered (-1); SIncoming []; SSetH true; SGot 7; SSent true; SSetH false; SEof; SSent true]).
 Proof. repeat split; reflexivity. Qed.
 
 Example C13_nonvacuous_cancel :
-  let sc := mkScn ClientStream 0 false [C2S 1; SendH [(0, 1)]; CHeader; C2S 2; Cancel] in
+  let sc := mkScn ClientStream 0 [] CtxLive [C2S 1; SendH [(0, 1)]; CHeader; C2S 2; Cancel false] in
   wf sc = true /\ no_known sc = true /\
   wrap_run fx_now sc =
   ([CSent true; CHdr [(0, 1)]; CSent true; CEnd OCancelled; CHdr [(0, 1)]; CTrl []],
-   [SEntered (-1); SGot 1; SSendH true; SGot 2; SDone true; SRecvErr]).
+   [SEntered (-1); SIncoming []; SGot 1; SSendH true; SGot 2; SDone true; SRecvErr]).
 Proof. repeat split; reflexivity. Qed.
 
 Example C13_nonvacuous_unary_header_on_error :
-  let sc := mkScn Unary 5 false [SetH [(0, 1)]; SetT [(1, 2)]; Ret (RetPlain 3)] in
+  let sc := mkScn Unary 5 [] CtxLive [SetH [(0, 1)]; SetT [(1, 2)]; Ret (RetPlain 3)] in
   wf sc = true /\ no_known sc = true /\
   fst (wrap_run fx_now sc) = [CEnd (OErr 2 3); CHdr [(0, 1)]; CTrl [(1, 2)]].
 Proof. repeat split; reflexivity. Qed.
